@@ -347,6 +347,14 @@ pub fn source(c: &MsgCase) -> String {
             false,
             &mut s,
         );
+        // two clauses with the same pattern text: each pattern's rejecting positions are listed separately
+        scenario(
+            "nomatch-twin",
+            &format!("({f}.each_call(matching!({pat})).returns(1u8),\n            {f}.each_call(matching!({pat})).returns(2u8))"),
+            t,
+            false,
+            &mut s,
+        );
         scenario(
             "ordered-inputs",
             &format!("{f}.next_call(/*MARK_B*/ matching!({pat})).returns(1u8)"),
@@ -496,7 +504,7 @@ pub fn judge(c: &MsgCase, line: &str) -> Result<CaseInfo, String> {
         };
         let msg = strip_ansi(raw);
         let tuple = match tag {
-            "nomatch" | "ordered-inputs" | "nomatch-after-error" => rej.as_ref(),
+            "nomatch" | "nomatch-twin" | "ordered-inputs" | "nomatch-after-error" => rej.as_ref(),
             "nomock" => rej.as_ref().or(acc.as_ref()),
             _ => acc.as_ref(),
         };
@@ -608,7 +616,7 @@ pub fn judge(c: &MsgCase, line: &str) -> Result<CaseInfo, String> {
             }
         }
         // mismatch positions
-        if matches!(tag, "nomatch" | "ordered-inputs" | "nomatch-after-error")
+        if matches!(tag, "nomatch" | "nomatch-twin" | "ordered-inputs" | "nomatch-after-error")
             && c.pattern.guard.is_none()
             && c.pattern.alts.len() == 1
         {
@@ -661,13 +669,27 @@ pub fn judge(c: &MsgCase, line: &str) -> Result<CaseInfo, String> {
                     }
                 }
             }
+            if tag == "nomatch-twin" {
+                // both patterns reject at the same positions: every (pattern, position) pair has its own entry
+                for p in 0..2 {
+                    for i in &expected_positions {
+                        let entry = format!("call pattern #{p}, input #{i}");
+                        if !msg.contains(&entry) {
+                            return Err(format!("{ctx}: two patterns with the same text reject the call, the report has no entry {entry:?}: {msg:?}"));
+                        }
+                    }
+                }
+                if !expected_positions.is_empty() {
+                    classes.push("two-patterns-rejecting-at-the-same-positions");
+                }
+            }
             mismatch_checked = true;
             if !expected_positions.is_empty() {
                 classes.push("mismatch-positions-checked");
             }
         }
         classes.push(match tag {
-            "nomatch" | "nomatch-after-error" => "kind:no-matching-call-patterns",
+            "nomatch" | "nomatch-twin" | "nomatch-after-error" => "kind:no-matching-call-patterns",
             "ordered-inputs" => "kind:inputs-not-matched-in-call-order",
             "explicit" | "explicit-2nd" => "kind:explicit-panic",
             "twice" | "twice-2nd" => "kind:cannot-return-twice",
@@ -763,7 +785,7 @@ pub fn case_strategy() -> impl Strategy<Value = MsgCase> {
         })
 }
 
-pub const RULE: &str = "programs = C06's pattern grammar (1-4 pattern-typed arguments) extended by 0-2 extra parameters {type without Debug, reference to it, &u32, &&u32, &mut u32, generic without / with Debug bound, slice of non-Debug values}; for each pattern one rejected and one accepted argument tuple of the finite domain are chosen and every mock-induced error kind is triggered on a fresh mock: no matching call patterns, inputs not matched in call order, explicit panic, value returned twice, no output available, wrong order, out of range, no mock implementation, cannot unmock, no default impl, plus a failed verification naming the pattern; the matching! invocations are written on one line or laid out over several lines (the named location is the line where the invocation starts); the trait uses the module api or the flattened api (entry points named differently from the methods, which the messages must still name). Non-trivial = arity >= 2 with a reference parameter and a checked mismatch report; distinct = distinct case";
+pub const RULE: &str = "programs = C06's pattern grammar (1-4 pattern-typed arguments) extended by 0-2 extra parameters {type without Debug, reference to it, &u32, &&u32, &mut u32, generic without / with Debug bound, slice of non-Debug values}; for each pattern one rejected and one accepted argument tuple of the finite domain are chosen and every mock-induced error kind is triggered on a fresh mock: no matching call patterns (also with two clauses of the same pattern text: one entry per pattern and position), inputs not matched in call order, explicit panic, value returned twice, no output available, wrong order, out of range, no mock implementation, cannot unmock, no default impl, plus a failed verification naming the pattern; the matching! invocations are written on one line or laid out over several lines (the named location is the line where the invocation starts); the trait uses the module api or the flattened api (entry points named differently from the methods, which the messages must still name). Non-trivial = arity >= 2 with a reference parameter and a checked mismatch report; distinct = distinct case";
 
 fn spec<'a>(prelude: &'a str) -> Spec<'a, MsgCase> {
     Spec {
